@@ -30,6 +30,8 @@ func checkC02(w *World, r *Result) {
 	sub := &Result{}
 	checkMemberFilter(w, sub)
 	checkUnionNode(w, sub)
+	// which embedded fields are flattened decides the keys the shadow struct writes (rule shared with C09)
+	checkFlatten(w, sub)
 	for _, o := range sub.Obs {
 		r.add(o)
 	}
@@ -365,6 +367,60 @@ func checkShadowStruct(w *World, r *Result) {
 		return true
 	})
 	r.cond(okRec, "AGR-C02e", fi.Name, "every field type is generated", w.Pos(rec.rs.Pos()), "ctx.generate(field.Type) for every field (unless gomacro:\"ignore\"), before and independently of the test whether the struct itself needs a wrapper", "the recursion into the field types is subject to {"+strings.Join(recWhy, " ; ")+"} (or missing): nested structs, named slices and maps declared elsewhere get no MarshalJSON/UnmarshalJSON although the struct that uses them is analysed")
+	// AGR-C02v: whether the struct needs the shadow struct at all is decided on EVERY field: the statement that
+	// records "this field is a union" is reached for each field, whatever the recursion above it does (a `continue`
+	// for an ignored field placed before it makes a struct whose only union fields are ignored lose its wrapper)
+	{
+		nflag := 0
+		for _, l := range loops {
+			ast.Inspect(l.rs.Body, func(x ast.Node) bool {
+				as, ok := x.(*ast.AssignStmt)
+				if !ok || len(as.Lhs) != 1 || len(as.Rhs) != 1 {
+					return true
+				}
+				lid := identOf(as.Lhs[0])
+				if lid == nil {
+					return true
+				}
+				if b, isB := info.TypeOf(lid).Underlying().(*types.Basic); !isB || b.Kind() != types.Bool {
+					return true
+				}
+				// a boolean local of the function, declared outside the loop, that decides an early return after it
+				obj := objOf(info, lid)
+				if obj == nil || (obj.Pos() >= l.rs.Pos() && obj.Pos() <= l.rs.End()) {
+					return true
+				}
+				decides := false
+				ast.Inspect(fi.Decl.Body, func(y ast.Node) bool {
+					if is, ok := y.(*ast.IfStmt); ok && is.Pos() > l.rs.End() && terminates(is.Body) {
+						for _, c := range splitCond(is.Cond, true) {
+							if id := identOf(c.expr); id != nil && objOf(info, id) == obj {
+								decides = true
+							}
+						}
+					}
+					return true
+				})
+				if !decides {
+					return true
+				}
+				nflag++
+				// conditions other than the union test itself
+				var extra []string
+				for _, c := range reachConds(info, fi.Decl, l.rs, as, l.subst) {
+					if strings.Contains(c, "requireWrapper") || strings.Contains(c, "Union") {
+						continue
+					}
+					extra = append(extra, c)
+				}
+				r.cond(len(extra) == 0, "AGR-C02v", fi.Name, "wrapper decision reads every field: "+es(as.Lhs[0])+" = "+es(as.Rhs[0]), w.Pos(as.Pos()),
+					"the flag is updated for each field of the struct, under no condition but the union test",
+					"the statement recording that a field is a union is only reached under {"+strings.Join(extra, ", ")+"}: a struct whose union fields all fall outside that condition gets no MarshalJSON/UnmarshalJSON and its union fields are written without Kind/Data")
+				return true
+			})
+		}
+		_ = nflag
+	}
 	// mirroring loop: no filter, lists in lock-step
 	guards, _ := loopFilterSplit(info, fi.Decl, mir.rs, mir.subst)
 	targets, ok, why := loopAppendsOnce(fi, mir.rs)
